@@ -178,3 +178,82 @@ func TestVerifTokReplay(t *testing.T) {
 	}
 	out.Emit(map[string]interface{}{"kind": "summary", "vectors": tot.n, "nontrivial": tot.nontrivial, "mismatches": tot.bad, "samples": tot.samples})
 }
+
+// TestVerifPadTokens: the tokenisation of a text is the tokenisation of its lines (none ends in a hyphen), wherever the
+// read buffer's boundaries fall: the text -- multi-byte letters, dashes inside digit words, non-ASCII blanks, an invalid
+// byte, a notice line -- is slid over every alignment by leading blanks and read in both modes.
+func TestVerifPadTokens(t *testing.T) {
+	out := vuOpenOut("VERIF_OUT")
+	defer out.Close()
+	base := []string{
+		"Boston, MA 02110–1301 États‐Unis d’Amérique übergrößenträger",
+		"naïve café société 𝒜𝒜 résumé — coöperate (§ 5) © 2020 Liège",
+		"Copyright © 2019 Société Générale",
+		"1. préface \xff fiancée 3.1. Überschrift · point",
+	}
+	var all []string
+	for k := 0; k < 9; k++ {
+		all = append(all, base...)
+	}
+	text := strings.Join(all, "\n") + "\n"
+	n, bad := 0, 0
+	for _, norm := range []bool{true, false} {
+		var ww []string
+		var wl, wn []int
+		for li, ln := range all {
+			w, l, nt, err := vtTokenize([]byte(ln), norm)
+			if err != nil {
+				t.Fatal(err)
+			}
+			for i := range w {
+				if w[i] == "\n" {
+					continue
+				}
+				ww = append(ww, w[i])
+				wl = append(wl, l[i]+li)
+			}
+			for range nt {
+				wn = append(wn, li+1)
+			}
+		}
+		for pad := 0; pad <= 1100; pad++ {
+			n++
+			w, l, nt, err := vtTokenize([]byte(strings.Repeat(" ", pad)+text), norm)
+			why := ""
+			if err != nil {
+				why = err.Error()
+			} else {
+				var gw []string
+				var gl []int
+				for i := range w {
+					if w[i] != "\n" {
+						gw = append(gw, w[i])
+						gl = append(gl, l[i])
+					}
+				}
+				if vuJS(gw) != vuJS(ww) {
+					for i := 0; i < len(gw) && i < len(ww); i++ {
+						if gw[i] != ww[i] {
+							why = fmt.Sprintf("word %d is %q, line by line %q", i, gw[i], ww[i])
+							break
+						}
+					}
+					if why == "" {
+						why = fmt.Sprintf("%d words, line by line %d", len(gw), len(ww))
+					}
+				} else if vuJS(gl) != vuJS(wl) {
+					why = "same words on other lines"
+				} else if vuJS(nt) != vuJS(wn) {
+					why = fmt.Sprintf("notice lines %v, line by line %v", nt, wn)
+				}
+			}
+			if why != "" {
+				bad++
+				if bad <= 5 {
+					out.Emit(map[string]interface{}{"kind": "mismatch", "pad": pad, "normalize": norm, "why": why})
+				}
+			}
+		}
+	}
+	out.Emit(map[string]interface{}{"kind": "summary", "vectors": n, "bytes": len(text), "mismatches": bad})
+}
